@@ -61,6 +61,8 @@ type c03H3Scenario struct {
 	ending   string // fin | reset | conn-close | midframe-fin | midframe-reset | close-before-headers
 	complete bool
 	code     uint64 // stream reset / connection close error code
+	status   int    // response status (0 = 200)
+	head     bool   // the client sends HEAD
 }
 
 type c03H3Peer struct {
@@ -163,7 +165,11 @@ func (p *c03H3Peer) serveStream(conn quic.Connection, str quic.Stream) {
 	}
 	var hb bytes.Buffer
 	enc := qpack.NewEncoder(&hb)
-	enc.WriteField(qpack.HeaderField{Name: ":status", Value: "200"})
+	st := sc.status
+	if st == 0 {
+		st = 200
+	}
+	enc.WriteField(qpack.HeaderField{Name: ":status", Value: strconv.Itoa(st)})
 	enc.WriteField(qpack.HeaderField{Name: "content-type", Value: "application/octet-stream"})
 	if sc.declared >= 0 {
 		enc.WriteField(qpack.HeaderField{Name: "content-length", Value: strconv.Itoa(sc.declared)})
@@ -248,6 +254,13 @@ func TestVerif_C03_h3cut(t *testing.T) {
 		switch r.Intn(12) {
 		case 0, 1:
 			sc.name = "complete"
+			// controls without a body although a length is declared: HEAD, 204, 304
+			switch r.Intn(4) {
+			case 0:
+				sc.name, sc.head, sc.declared, sc.send = "complete-head-with-length", true, len(body), 0
+			case 1:
+				sc.name, sc.status, sc.declared, sc.send = "complete-304-with-length", 304, len(body), 0
+			}
 		case 2: // FIN before the declared length
 			sc.name, sc.declared, sc.send, sc.complete = "short-fin", len(body), cutAt(), false
 		case 3, 4, 5: // stream reset with every HTTP/3 error code, incl. H3_NO_ERROR, mid-body or after HEADERS only
@@ -280,6 +293,14 @@ func TestVerif_C03_h3cut(t *testing.T) {
 		peer.mu.Lock()
 		peer.queue = []c03H3Scenario{sc}
 		peer.mu.Unlock()
+		method := "GET"
+		if sc.head {
+			method = "HEAD"
+		}
+		want := body
+		if sc.head || sc.status == 304 {
+			want = ""
+		}
 		c := mk()
 		stream := r.Intn(4) == 0
 		cc := &c03Caller{mode: c03PickMode(r, "", "", 0), dir: tmpDir}
@@ -301,7 +322,7 @@ func TestVerif_C03_h3cut(t *testing.T) {
 		ch := make(chan out, 1)
 		go func() {
 			var o out
-			o.first, o.ferr = c03DoFirst(c, url, stream, cc)
+			o.first, o.ferr = c03DoFirstM(c, method, url, stream, cc)
 			second, err2 := c.R().Get(url)
 			if err2 == nil && second != nil && second.Response != nil {
 				if stream {
@@ -332,7 +353,7 @@ func TestVerif_C03_h3cut(t *testing.T) {
 		case strings.HasPrefix(o.first, "ok"):
 			if !sc.complete {
 				ok, why = false, "incomplete/inconsistent HTTP/3 response reported as success: "+c04Short(o.first)
-			} else if o.first != "ok body="+body {
+			} else if o.first != "ok body="+want {
 				ok, why = false, "body differs from the true body"
 			}
 			reached["ok"]++
@@ -375,7 +396,7 @@ func TestVerif_C03_h3cut(t *testing.T) {
 	if failures >= 12 {
 		return
 	}
-	for _, need := range []string{"ok", "fail", "complete", "short-fin", "reset-code-100", "reset-code-10b", "reset-code-10c", "conn-close-code-100", "conn-close-code-102", "midframe-fin", "overlong", "close-before-headers", "reset-after-full-body"} {
+	for _, need := range []string{"ok", "fail", "complete", "complete-head-with-length", "complete-304-with-length", "short-fin", "reset-code-100", "reset-code-10b", "reset-code-10c", "conn-close-code-100", "conn-close-code-102", "midframe-fin", "overlong", "close-before-headers", "reset-after-full-body"} {
 		if reached[need] == 0 {
 			t.Errorf("C03/h3cut never reached %q", need)
 		}
